@@ -434,6 +434,13 @@ func (ip *Interp) callSSA(caller *frame, pos token.Pos, fn *ssa.Function, args [
 	if fn.Blocks == nil {
 		ip.unsupported("no code for function %s", fn.String())
 	}
+	if fn.Pkg != nil {
+		switch fn.Pkg.Pkg.Path() {
+		case "reflect", "internal/abi", "internal/reflectlite", "unsafe", "runtime", "syscall", "os", "sync/atomic":
+			// these packages work on raw memory / runtime structures and are only usable through the models
+			ip.unsupported("function %s is outside the reflect/runtime model", fn.String())
+		}
+	}
 	if ip.W != nil && !ip.merging && ip.P.MergeFns[fn.String()] && !ip.inInit {
 		if r, ok := ip.callMerged(caller, pos, fn, args, env); ok {
 			return r
